@@ -71,13 +71,13 @@ def explore(ctx):
         "disagreements": ndis,
         "loops_with_constant_depth": bounded,
         "loops_in_known_class": grows,
-        "rule": "every composition of the 16 tail contexts up to depth 1 (all) and 2 (%s) x 9 loop shapes (self, 2-way and "
+        "rule": "every composition of the 16 tail contexts up to depth 1 (all) and 2 (%s) x %d loop shapes (self, 2-way (also with each procedure binding names of its own and reading globals named like the other's) and "
                 "3-way mutual, through a procedure parameter, variadic, closure returned from an internal definition, and "
                 "three with a computed operator: call, if, car), "
                 "each run for N=%d and N=%d through the depth-instrumented evaluator; the maximal nesting depth of the "
                 "evaluator's calls is compared exactly between model and implementation (hook counter) and must be the "
                 "same for both N, the value must be N. non-trivial = loop whose depth is independent of N"
-                % ("sampled" if ctx.quick else "all; depth 3 sampled", nsmall, nlarge),
+                % ("sampled" if ctx.quick else "all; depth 3 sampled", len(gen.LOOP_SHAPES), nsmall, nlarge),
         "exhaustive": False,
         "input_distribution": dist,
         "samples": [{"shape": c["shape"], "contexts": c["contexts"], "definitions": c["defs"], "model": r[0][-2:], "impl": r[1][-2:]}
